@@ -116,6 +116,16 @@ CLAIMED["C03"] = (
     "interleavings below handler granularity cannot be forced in Go: explored in the model, observed by the race detector; "
     "trusted: TLC, Go race detector, parking scheduler (stuck schedule = inconclusive)", "6 C03")
 
+CLAIMED["C10"] = (
+    "TLA+ spec RuxPool: contexts as records of observable fields, field-by-field Init/Reset, pool of residues; TLC explores the "
+    "complete residue graph and checks that the first handler always observes the pristine record (action property); every "
+    "history replayed on a real router with a probe middleware and compared with a freshly built twin",
+    "All histories of <=3 requests over {static, dynamic, 404, 405, panicking with/without OnPanic, HandleContext} x mutation sets "
+    "{Set, Params, AddError, Abort, status+write, replaced Resp, replaced Req}: the last request's first handler observes "
+    "Data/Params/Errors/IsAborted/StatusCode/Length/Resp/Req exactly as on a fresh router; runs on one OS thread with GC off so "
+    "sync.Pool really recycles (reuse counted in the evidence).",
+    "sync.Pool recycling is observed, not forced; Router() of foreign contexts is outside the statement; trusted: TLC", "6 C10")
+
 PENDING = {}
 
 
